@@ -65,7 +65,7 @@ type panelEv struct {
 type panelAmt struct {
 	Rx int64 `json:"rx"`
 	Tx int64 `json:"tx"`
-	Nt int64 `json:"nt"`
+	Nt []int `json:"nt"` // sessions whose closing notice is part of the amount
 }
 
 type panelStatus struct {
@@ -108,7 +108,11 @@ type panelObs struct {
 	Db    []panelDbObs  `json:"db"`
 	Rest  []bool        `json:"rest"`
 	Car   []panelAmt    `json:"car"`
-	Chg   []panelAmt    `json:"chg"`
+	Chg   []panelAmt    `json:"chg"`  // usage contained in completed uploads (units, notices by session)
+	Lost  []panelAmt    `json:"lost"` // crossed a pool after the final collection of its record
+	Drp   []panelAmt    `json:"drp"`  // uploaded for a user that no longer exists
+	Upl   []bool        `json:"upl"`  // per user: nothing left in the active valve, the queue or in flight
+	Evt   []bool        `json:"evt"`  // per user: has been terminated at least once
 	Multi []bool        `json:"multi"` // commitUpdate has verdicts for several users: its terminations do not park
 	Quiet bool          `json:"quiet"`
 	Dead  bool          `json:"dead"`
@@ -156,6 +160,24 @@ var panelHookNames = map[string]string{
 	"panel.update.lockedA":       "lockedA",
 	"panel.commit.lockedQ":       "lockedQ",
 	"panel.commit.collected":     "collected",
+}
+
+// panelMgr wraps the real manager: AuthenticateUser becomes a schedule point ("auth": inside GetUser, between the
+// look-up and the store). On the unchanged tree the caller parks there holding activeUsersM, so a second first
+// connection of the same user blocks on the lock instead of reaching the point - which is what the hypothesis
+// schedules of the deviation GetUserCheckThenAct find out.
+type panelMgr struct {
+	usermanager.UserManager
+	w *panelWorld
+}
+
+func (m panelMgr) AuthenticateUser(uid []byte) (int64, int64, error) {
+	if m.w.trace == nil {
+		if v, ok := m.w.byGoid.Load(panelGoid()); ok {
+			m.w.at(v.(*panelProc), "auth", nil)
+		}
+	}
+	return m.UserManager.AuthenticateUser(uid)
 }
 
 type panelEnv struct {
@@ -206,6 +228,8 @@ type panelObj struct {
 	links    []*kit.VLink
 	cs, ss   io.ReadWriteCloser
 	warm     bool
+	base     [2]int64 // link bytes when the behaviour starts
+	units    [2]int64 // traffic units sent since then, per direction
 }
 
 type panelProc struct {
@@ -257,6 +281,8 @@ type panelWorld struct {
 	topReal [][2]int64
 	table   []string
 	dumps   []string
+	inexact bool // a traffic unit went through a session whose first (padded) frames had not been sent: sizes unknown
+	structOK bool // the current step agrees with the model in everything but stored credits
 }
 
 var panelCur atomic.Pointer[panelWorld]
@@ -322,7 +348,7 @@ func panelNewWorld(env *panelEnv, cfg panelCfg, nproc int) (*panelWorld, error) 
 		w.gates[g] = true
 	}
 	w.panel = &userPanel{
-		Manager:          env.mgr,
+		Manager:          panelMgr{env.mgr, w},
 		activeUsers:      make(map[[16]byte]*ActiveUser),
 		usageUpdateQueue: make(map[[16]byte]*usagePair),
 		uploadInterval:   defaultUploadInterval,
@@ -376,6 +402,9 @@ func panelNewWorld(env *panelEnv, cfg panelCfg, nproc int) (*panelWorld, error) 
 		up, down, _, _ := w.dbRead(u)
 		w.baseCr[u] = [2]int64{up, down}
 		w.baseCar[u] = w.carriedRaw(u)
+	}
+	for _, o := range w.objs {
+		o.base = w.linkBytes(o)
 	}
 	w.procs = make([]*panelProc, nproc)
 	return w, nil
@@ -439,6 +468,14 @@ func panelReadFull(r io.Reader, n int) error {
 // unit sends one traffic unit through the session in direction d and waits until the receiving side's
 // application has read it (deplex meters before it delivers).
 func (w *panelWorld) unitTraffic(o *panelObj, d string) error {
+	if !o.warm {
+		w.inexact = true
+	}
+	if d == "rx" {
+		atomic.AddInt64(&o.units[0], 1)
+	} else {
+		atomic.AddInt64(&o.units[1], 1)
+	}
 	payload := kit.TokenBytes(uint64(o.idx)<<32|uint64(panelTok.Add(1)), panelPayload)
 	if o.cs == nil {
 		s, err := o.client.OpenStream()
@@ -1088,8 +1125,27 @@ type panelVerdict struct {
 	Ev   []string
 }
 
+// noticeBytes: what the session put on its links towards the client beyond the counted traffic units, i.e. its
+// closing notice (one unit = one frame of w.unit bytes once the padded first frames are out)
+func (w *panelWorld) noticeBytes(o *panelObj) int64 {
+	return w.linkBytes(o)[1] - o.base[1] - w.unit*atomic.LoadInt64(&o.units[1])
+}
+
+// expectedCharged prices the model's account of what completed uploads contained, in bytes (up, down)
+func (w *panelWorld) expectedCharged(a panelAmt) [2]int64 {
+	r := [2]int64{a.Rx * w.unit, a.Tx * w.unit}
+	for _, oi := range a.Nt {
+		if oi >= 1 && oi <= len(w.objs) {
+			r[1] += w.noticeBytes(w.objs[oi-1])
+		}
+	}
+	return r
+}
+
 func panelWhyKey(why string) string {
 	switch why {
+	case "getuser-check-then-act":
+		return "getuser-check-then-act"
 	case "lookup-gap":
 		return "lookup-gap-vs-terminate"
 	case "stale-terminate":
